@@ -4,7 +4,7 @@
      the keyword branch and the msg= branch of IrcMsg.__init__ (ircmsgs.py:254-286),
      the reply message makers privmsg / notice / action,
      callbacks._makeReply (callbacks.py:184-256),
-     label insertion, the outFilter chain and Irc._truncateMsg inside
+     label insertion, the outFilter chain and Irc._truncateMsg (byte-counting, repaired C06.F19) inside
      Irc.takeMsg (irclib.py:1236-1300), and the UTF-8 length the socket
      driver's str.encode() produces.
    IrcMsg.__str__, the msg record and tag escaping are reused from C05.Model.
@@ -209,30 +209,45 @@ Definition split_tagpart (l : str) : res (str * str) :=
       else Ok ([], l)
   end.
 
-(* Irc._truncateMsg: the resulting str(msg).  Counts characters. *)
+(* len(c.encode('utf-8')) *)
+Definition utf8_len1 (c : N) : nat :=
+  if c <? 128 then 1%nat else if c <? 2048 then 2%nat else if c <? 65536 then 3%nat else 4%nat.
+Fixpoint utf8_len (s : str) : nat :=
+  match s with [] => O | c :: s' => (utf8_len1 c + utf8_len s')%nat end.
+
+(* str.encode('utf-8') raises UnicodeEncodeError on a lone surrogate *)
+Definition is_surrogate (c : N) : bool := (55296 <=? c) && (c <=? 57343).
+
+(* s.encode('utf-8')[:n].decode('utf-8', 'ignore'): the characters whose
+   encoding lies entirely within the first n bytes (the cut-through one is dropped) *)
+Fixpoint take_bytes (n : nat) (s : str) : str :=
+  match s with
+  | [] => []
+  | c :: s' => if Nat.leb (utf8_len1 c) n then c :: take_bytes (n - utf8_len1 c) s' else []
+  end.
+
+(* Irc._truncateMsg: the resulting str(msg).  The limit counts the bytes of the
+   UTF-8 encoding of the part after the tags; the cut falls on a character boundary. *)
 Definition truncate (l : str) : res str :=
   do tr <- split_tagpart l;
-  if Nat.ltb gen.T06.TRUNC_LIMIT (length (snd tr))
-  then Ok (fst tr ++ firstn gen.T06.TRUNC_KEEP (snd tr) ++ gen.T06.TRUNC_TAIL)
+  if existsb is_surrogate (snd tr) then Raise UnicodeError     (* msg_rest_str.encode('utf-8') *)
+  else if Nat.ltb gen.T06.TRUNC_LIMIT (utf8_len (snd tr))
+  then Ok (fst tr ++ take_bytes gen.T06.TRUNC_KEEP (snd tr) ++ gen.T06.TRUNC_TAIL)
   else Ok l.
 
-(* what the driver receives for one queued message: None = dropped by a filter *)
-Definition take_line (lbl : option str) (fs : list (msg -> option msg)) (m : msg) : option (res str) :=
+(* what the driver receives for one queued message: None = nothing (dropped by a
+   filter, or an exception inside takeMsg: Irc.__firewalled__ lists takeMsg, so
+   log.firewall logs it and takeMsg returns None) *)
+Definition take_line (lbl : option str) (fs : list (msg -> option msg)) (m : msg) : option str :=
   match run_filters fs (add_label lbl m) with
   | None => None
-  | Some m' => Some (truncate (serialize m'))
+  | Some m' => match truncate (serialize m') with Ok l => Some l | Raise _ => None end
   end.
 
 (* ---- what is measured on the wire ---- *)
 (* the line without its "@tags " part (the 512 limit excludes tags) *)
 Definition untagged (l : str) : str :=
   match split_tagpart l with Ok tr => snd tr | Raise _ => l end.
-
-(* len(c.encode('utf-8')) *)
-Definition utf8_len1 (c : N) : nat :=
-  if c <? 128 then 1%nat else if c <? 2048 then 2%nat else if c <? 65536 then 3%nat else 4%nat.
-Fixpoint utf8_len (s : str) : nat :=
-  match s with [] => O | c :: s' => (utf8_len1 c + utf8_len s')%nat end.
 
 Definition ascii (s : str) : bool := forallb (fun c => c <? 128) s.
 
@@ -278,7 +293,7 @@ Definition run (v : value) : value :=
             (maker (gS (nth_v 0 p)) (gS (nth_v 1 p)) (gS (nth_v 2 p)) (gS (nth_v 3 p))
                    (Some (gMsg (nth_v 4 p))))
   | 5 => match take_line (gO gS (nth_v 0 p)) [] (gMsg (nth_v 1 p)) with
-         | Some r => vR vLine r
+         | Some l => vR vLine (Ok l)
          | None => L []
          end
   | 6 => vS (repr (gS p))
